@@ -112,6 +112,43 @@ type c05eUndo struct {
 type c05eTracker struct {
 	leaves []accHash
 	undo   []c05eUndo
+	ops    []string // model ops collected along the way
+	outs   []string
+}
+
+// c05eDiffOrderLeaves: the elements of an update in the order ForEachTreeNode walks them,
+// in the wire form of the acc-nodes op (index:spent:elementHash:proof).
+func c05eDiffOrderLeaves(au consensus.ApplyUpdate) []string {
+	var out []string
+	add := func(eh types.Hash256, se types.StateElement, spent bool) {
+		out = append(out, accWLeaf(se.LeafIndex, accLeaf{Elem: accHash(eh), Spent: spent}, castProof(se.MerkleProof)))
+	}
+	for _, d := range au.SiacoinElementDiffs() {
+		add(chain.SCElemHash(d.SiacoinElement), d.SiacoinElement.StateElement, d.Spent)
+	}
+	for _, d := range au.SiafundElementDiffs() {
+		add(chain.SFElemHash(d.SiafundElement), d.SiafundElement.StateElement, d.Spent)
+	}
+	for _, d := range au.FileContractElementDiffs() {
+		e := d.FileContractElement
+		if d.Revision != nil {
+			e.FileContract = *d.Revision
+		}
+		add(chain.FCElemHash(e), d.FileContractElement.StateElement, d.Resolved)
+	}
+	for _, d := range au.V2FileContractElementDiffs() {
+		e := d.V2FileContractElement
+		if d.Revision != nil {
+			e.V2FileContract = *d.Revision
+		}
+		add(chain.V2FCElemHash(e), d.V2FileContractElement.StateElement, d.Resolution != nil)
+	}
+	for _, e := range c05eAttestations(au) {
+		add(c05eAttHash(e), e.StateElement, false)
+	}
+	cie := au.ChainIndexElement()
+	add(chain.CIElemHash(cie), cie.StateElement, false)
+	return out
 }
 
 func c05E2E(c *fw.Ctx) {
@@ -154,13 +191,26 @@ func c05E2E(c *fw.Ctx) {
 			}
 			// remember a few elements the next block will spend, to ask about them afterwards
 			before := s.St.Clone()
-			p, au, err := s.Step()
+			p := s.BuildBlock()
+			junk := false
+			if c.Rng.Intn(2) == 0 {
+				junk = c05eInjectJunk(c, s, &p)
+			}
+			au, err := s.Apply(p.Block, p.Supp)
 			if err != nil {
-				res.Note("simulator produced a block core rejects (C05E sim %d step %d): %v", si, step, err)
+				if junk {
+					// ValidateBlock accepted it a moment ago: accept/apply disagree
+					res.Violate(fw.Violation{Key: "c05e-junk-block-rejected", What: "a block ValidateBlock accepts (junk in the never-verified proof of an ephemeral parent) is rejected by Apply: " + err.Error(), Replay: replay})
+				} else {
+					res.Note("simulator produced a block core rejects (C05E sim %d step %d): %v", si, step, err)
+				}
 				break
 			}
-			_ = p
-			if !c05eApplied(c, tr, s, au, "apply", replay) {
+			stage := "apply"
+			if junk {
+				stage = "apply-junk-ephemeral-proof"
+			}
+			if !c05eAppliedJ(c, tr, s, au, stage, junk, replay) {
 				break
 			}
 			// C04 on the real thing: an element spent by the block no longer verifies as
@@ -197,8 +247,19 @@ func c05E2E(c *fw.Ctx) {
 		for k, v := range s.Counts {
 			res.CountN("e2e-sim:"+k, v)
 		}
+		ops, outs = append(ops, tr.ops...), append(outs, tr.outs...)
 	}
 	c.Compare(ops, outs)
+	d := res.Distribution
+	if d["e2e-junk:blocks(valid)"] > 0 {
+		res.Note("OBSERVATION (outside the statement of C05, not flagged): %d ValidateBlock-valid blocks carried junk hashes in the MerkleProof of an ephemeral parent (LeafIndex unassigned; validation never reads that proof; spendSiacoinElement copies it into the diff; addLeaves appends the real siblings after it). Roots, leaf count and UpdateElementProof of every other element were unaffected (checked against the naive forest, 0 deviations). Affected: (1) the proof carried by the created-and-spent diff element itself: %d of %d such proofs are not the naive path (all of them on elements spent in the same block, which no client keeps); (2) ApplyUpdate.ForEachTreeNode: %d of the reported nodes have a wrong hash or position and %d nodes on the paths of written leaves are not reported correctly (a wrongly 'seen' coordinate also cuts the walk of later leaves short), in %d of the %d blocks - a client that maintains a node store from this stream is corrupted by a valid block. The statement speaks of roots, leaf count and updated proofs of elements held with a valid proof, not of the node stream nor of the proof of an element that is created and spent within one block; the Lean theorems c05_foreachtreenode_sound/_complete have the violated hypothesis (handed-in proofs are naive paths; added leaves come with EMPTY proofs) explicit.",
+			d["e2e-junk:blocks(valid)"], d["e2e-junk:created-diff-proofs-wrong"], d["e2e-junk:ephemeral-parents-with-junk-proof"],
+			d["e2e-junk:tree-nodes-wrong(hash or position)"], d["e2e-junk:path-nodes-not-reported-correctly"],
+			d["e2e-junk:blocks-with-corrupt-node-stream"], d["e2e-junk:blocks(valid)"])
+	}
+	if n := d["e2e-junk:blocks-rejected-by-ValidateBlock(observation closed)"]; n > 0 {
+		res.Note("%d blocks with junk in the proof of an ephemeral parent were rejected by ValidateBlock (this library refuses them; not a violation of C05)", n)
+	}
 }
 
 // c05eCheck compares the current state with the naive forest.
@@ -286,6 +347,83 @@ func c05eTreeNodes(c *fw.Ctx, tr *c05eTracker, each func(fn func(row, col uint64
 }
 
 func c05eApplied(c *fw.Ctx, tr *c05eTracker, s *chain.Sim, au consensus.ApplyUpdate, stage string, replay any) bool {
+	return c05eAppliedJ(c, tr, s, au, stage, false, replay)
+}
+
+// c05eInjectJunk: the directed case. If the block spends an ephemeral parent (an output
+// created earlier in the same block, LeafIndex == UnassignedLeafIndex), junk hashes are
+// put into that parent's MerkleProof — which validation never looks at — and the block is
+// re-sealed (commitment, nonce). It must still validate.
+func c05eInjectJunk(c *fw.Ctx, s *chain.Sim, p *chain.BlockPlan) bool {
+	if p.Block.V2 == nil {
+		return false
+	}
+	nb := chain.DeepCopyBlock(p.Block)
+	done := 0
+	for ti := range nb.V2.Transactions {
+		for ii := range nb.V2.Transactions[ti].SiacoinInputs {
+			se := &nb.V2.Transactions[ti].SiacoinInputs[ii].Parent.StateElement
+			if se.LeafIndex == types.UnassignedLeafIndex {
+				for k := 0; k < 1+c.Rng.Intn(3); k++ {
+					var h types.Hash256
+					c.Rng.Read(h[:])
+					se.MerkleProof = append(se.MerkleProof, h)
+				}
+				done++
+			}
+		}
+	}
+	if done == 0 {
+		return false
+	}
+	s.Seal(&nb, p.Miner)
+	if err := consensus.ValidateBlock(s.Tip, nb, p.Supp); err != nil {
+		// not a violation of C05: a library that refuses such blocks closes the observation
+		c.Res.Count("e2e-junk:blocks-rejected-by-ValidateBlock(observation closed)")
+		return false
+	}
+	p.Block = nb
+	c.Res.CountN("e2e-junk:ephemeral-parents-with-junk-proof", done)
+	c.Res.Count("e2e-junk:blocks(valid)")
+	return true
+}
+
+// c05eCreatedProofs: the proof every created element carries in the diffs (what a client
+// stores for a new element) against the naive path. Returns the number of wrong ones.
+func c05eCreatedProofs(tr *c05eTracker, au consensus.ApplyUpdate) (checked, wrong, wrongSpent int) {
+	trees := accNfForest(tr.leaves)
+	chk := func(se types.StateElement, created, spent bool) {
+		if !created || se.LeafIndex >= uint64(len(tr.leaves)) {
+			return
+		}
+		checked++
+		if !accEqProof(castProof(se.MerkleProof), accNfPath(trees, int(se.LeafIndex))) {
+			wrong++
+			if spent {
+				wrongSpent++
+			}
+		}
+	}
+	for _, d := range au.SiacoinElementDiffs() {
+		chk(d.SiacoinElement.StateElement, d.Created, d.Spent)
+	}
+	for _, d := range au.SiafundElementDiffs() {
+		chk(d.SiafundElement.StateElement, d.Created, d.Spent)
+	}
+	for _, d := range au.FileContractElementDiffs() {
+		chk(d.FileContractElement.StateElement, d.Created, d.Resolved)
+	}
+	for _, d := range au.V2FileContractElementDiffs() {
+		chk(d.V2FileContractElement.StateElement, d.Created, d.Resolution != nil)
+	}
+	for _, e := range c05eAttestations(au) {
+		chk(e.StateElement, true, false)
+	}
+	chk(au.ChainIndexElement().StateElement, true, false)
+	return
+}
+
+func c05eAppliedJ(c *fw.Ctx, tr *c05eTracker, s *chain.Sim, au consensus.ApplyUpdate, stage string, junk bool, replay any) bool {
 	res := c.Res
 	ls := c05eApplyLeaves(au)
 	u := c05eUndo{n: len(tr.leaves), old: map[uint64]accHash{}}
@@ -313,8 +451,55 @@ func c05eApplied(c *fw.Ctx, tr *c05eTracker, s *chain.Sim, au consensus.ApplyUpd
 	res.Count("e2e:step=" + stage)
 	res.Count("e2e:leaves=" + c05Bucket(len(tr.leaves)))
 	ok := c05eCheck(c, tr, s, stage, replay)
+	// the proofs the diffs hand out for created elements
+	if n, wrong, wrongSpent := c05eCreatedProofs(tr, au); junk {
+		res.CountN("e2e-junk:created-diff-proofs-checked", n)
+		res.CountN("e2e-junk:created-diff-proofs-wrong", wrong)
+		if wrong != wrongSpent {
+			// a wrong proof on an element that is NOT spent in the same block would be a live element a client cannot use
+			res.Violate(fw.Violation{Key: "c05e-diff-proof-stale:junk-unspent", What: "junk in an ephemeral parent's proof corrupted the diff proof of an element that stays unspent", Replay: replay})
+			ok = false
+		}
+	} else {
+		res.CountN("e2e:created-diff-proofs-checked", n)
+		if wrong > 0 {
+			res.Violate(fw.Violation{Key: "c05e-diff-proof-stale", What: fmt.Sprintf("%d created element(s) carry in the diff a proof that is not the path of the naive forest", wrong), Replay: replay})
+			ok = false
+		}
+	}
 	// ForEachTreeNode: nodes equal the forest's; its leaves are exactly the ones derived from the diffs
-	rows := c05eTreeNodes(c, tr, au.ForEachTreeNode, stage, replay)
+	var rows map[uint64]accHash
+	if junk {
+		rows = c05eTreeNodesJunk(c, tr, au, ls)
+	} else {
+		rows = c05eTreeNodes(c, tr, au.ForEachTreeNode, stage, replay)
+		// completeness: every node on the path (leaf up to its root) of every written leaf is reported
+		reported := map[[2]uint64]bool{}
+		au.ForEachTreeNode(func(row, col uint64, _ types.Hash256) { reported[[2]uint64{row, col}] = true })
+		trees := accNfForest(tr.leaves)
+		for _, l := range ls {
+			for _, t := range trees {
+				if int(l.idx) >= t.start && int(l.idx) < t.start+1<<uint(t.height) {
+					for row := 0; row <= t.height; row++ {
+						if !reported[[2]uint64{uint64(row), l.idx >> uint(row)}] {
+							res.Violate(fw.Violation{Key: "c05e-treenode-missing", What: fmt.Sprintf("ForEachTreeNode does not report node (row %d, col %d) on the path of written leaf %d", row, l.idx>>uint(row), l.idx), Replay: replay})
+							ok = false
+						}
+					}
+				}
+			}
+		}
+	}
+	// the Lean model of ForEachTreeNode on the same elements, node for node in call order
+	// (junk blocks included: the model is a transliteration, it reproduces the corruption)
+	if c.Model != nil && len(tr.leaves) <= 200 && (junk || c.Rng.Intn(3) == 0) {
+		var stream []string
+		au.ForEachTreeNode(func(row, col uint64, h types.Hash256) {
+			stream = append(stream, fmt.Sprintf("%d:%d:%s", row, col, accWHash(h)))
+		})
+		tr.ops = append(tr.ops, "acc-nodes "+accWList(c05eDiffOrderLeaves(au)))
+		tr.outs = append(tr.outs, accWList(stream))
+	}
 	want := map[uint64]accHash{}
 	for _, l := range ls {
 		want[l.idx] = l.hash
@@ -357,4 +542,54 @@ func c05eReverted(c *fw.Ctx, tr *c05eTracker, s *chain.Sim, ru consensus.RevertU
 		}
 	}
 	return ok
+}
+
+// c05eTreeNodesJunk: the node stream of a block with junk in an ephemeral parent's proof,
+// classified instead of flagged (see the evidence notes): how many reported nodes are wrong
+// (hash differs from the naive forest, or coordinates outside it) and how many nodes on
+// the paths of written leaves are not reported correctly at all.
+func c05eTreeNodesJunk(c *fw.Ctx, tr *c05eTracker, au consensus.ApplyUpdate, ls []c05eLeaf) map[uint64]accHash {
+	res := c.Res
+	trees := accNfForest(tr.leaves)
+	find := func(row, col uint64) (accHash, bool) {
+		start := col << row
+		for _, t := range trees {
+			if int(start) >= t.start && int(start) < t.start+1<<uint(t.height) && int(row) <= t.height {
+				return t.levels[row][(int(start)-t.start)>>row], true
+			}
+		}
+		return accHash{}, false
+	}
+	rows := map[uint64]accHash{}
+	good := map[[2]uint64]bool{}
+	wrong := 0
+	au.ForEachTreeNode(func(row, col uint64, h types.Hash256) {
+		res.Count("e2e-junk:tree-nodes-reported")
+		if row == 0 {
+			rows[col] = h
+		}
+		if want, ok := find(row, col); ok && want == h {
+			good[[2]uint64{row, col}] = true
+		} else {
+			wrong++
+		}
+	})
+	missing := 0
+	for _, l := range ls {
+		for _, t := range trees {
+			if int(l.idx) >= t.start && int(l.idx) < t.start+1<<uint(t.height) {
+				for row := 0; row <= t.height; row++ {
+					if !good[[2]uint64{uint64(row), l.idx >> uint(row)}] {
+						missing++
+					}
+				}
+			}
+		}
+	}
+	res.CountN("e2e-junk:tree-nodes-wrong(hash or position)", wrong)
+	res.CountN("e2e-junk:path-nodes-not-reported-correctly", missing)
+	if wrong > 0 || missing > 0 {
+		res.Count("e2e-junk:blocks-with-corrupt-node-stream")
+	}
+	return rows
 }
